@@ -4,7 +4,7 @@ J against the geometric inside test where it is elementary, and the attribute re
 import numpy as np
 from scipy.spatial.transform import Rotation as R
 
-from oracles.sources import CLASSES, MAGNETS, make
+from oracles.sources import CLASSES, MAGNETS, interior_points, make
 
 
 def special_points(src, cls, rng, nps):
@@ -43,6 +43,10 @@ def special_points(src, cls, rng, nps):
         v = np.asarray(src.vertices)
         pts.append(v.mean(axis=0))
         pts.append(v.mean(axis=0) + nps.uniform(-0.05, 0.05, 3))
+    from oracles.sources import interior_points
+    ip = interior_points(cls, src, nps, 3)
+    if ip is not None:
+        pts += list(ip)
     return np.array(pts)
 
 
@@ -75,6 +79,12 @@ def sweep(ctx, n):
                                      "observer_local": local[k].tolist(), "B": B[k].tolist(), "H": H[k].tolist(), "J": J[k].tolist()}})
         if cls not in MAGNETS and np.any(J != 0):
             fails.append({"key": f"j-nonzero:{cls}", "desc": "J/M not identically zero for a current/dipole/triangle", "replay": {"class": cls}})
+        if cls in ("Tetrahedron", "TriangularMesh") and obs is local:
+            ip = interior_points(cls, src, nps, 4)
+            Jin = magpy.getJ(src, ip)
+            if not np.allclose(Jin, src.polarization):
+                fails.append({"key": f"j-indicator:{cls}", "desc": "J is not the polarization at a point inside the body", "replay": {"class": cls, "points": ip.tolist(), "J": Jin.tolist(),
+                              "vertices": np.asarray(src.vertices).tolist()}})
         # J is pol (observer frame) strictly inside, 0 strictly outside — classes with an elementary inside test, local frame
         if cls in ("Cuboid", "Cylinder", "Sphere") and obs is local:
             if cls == "Cuboid":
